@@ -6,6 +6,8 @@ import (
 	"fmt"
 	"go/constant"
 	"go/token"
+	"go/types"
+	"os"
 	"sort"
 	"strings"
 
@@ -98,14 +100,35 @@ type ledgerCall struct {
 	marks []*Site
 }
 
-func ledgerCalls(a *Analysis) ([]*ledgerCall, string) {
+// nnsLedgerFns: the two ledger helpers, found from Register: the function that
+// holds the store of an owner balance and the one that holds the store of the supply.
+func nnsLedgerFns(cx *CheckCtx) (bal, sup *ssa.Function) {
+	m := cx.method("nns", "Register")
+	if m == nil {
+		return nil, nil
+	}
+	a := cx.run(m)
+	bal = siteFunc(a, func(s *Site) bool { return isStore(s) && keyFamily(s.Args[1]) == pfxBalance })
+	sup = siteFunc(a, func(s *Site) bool { return isStore(s) && keyFamily(s.Args[1]) == pfxSupply })
+	if bal == nil || len(bal.Params) != 4 {
+		cx.undecided("anchor", nnsPkg+".updateBalance", "Register does not write the owner balance through one helper (ctx, token, account, diff)", "")
+		bal = nil
+	}
+	if sup == nil || len(sup.Params) != 2 {
+		cx.undecided("anchor", nnsPkg+".updateTotalSupply", "Register does not write the total supply through one helper (ctx, diff)", "")
+		sup = nil
+	}
+	return
+}
+
+func ledgerCalls(a *Analysis, balFn, supFn string) ([]*ledgerCall, string) {
 	var out []*ledgerCall
 	for _, s := range a.Sites(func(s *Site) bool {
-		return s.Inlined && (s.Callee == nnsPkg+".updateBalance" || s.Callee == nnsPkg+".updateTotalSupply")
+		return s.Inlined && (s.Callee == balFn || s.Callee == supFn)
 	}) {
 		lc := &ledgerCall{site: s, kind: "balance"}
 		di := 3
-		if s.Callee == nnsPkg+".updateTotalSupply" {
+		if s.Callee == supFn {
 			lc.kind = "supply"
 			di = 1
 		}
@@ -139,6 +162,11 @@ func runC10(cx *CheckCtx) {
 		return
 	}
 	nMethods := 0
+	balF, supF := nnsLedgerFns(cx)
+	if balF == nil || supF == nil {
+		return
+	}
+	balFn, supFn := fq(balF), fq(supF)
 	for _, m := range c.Methods {
 		a := cx.run(m)
 		// D1 single writers
@@ -149,13 +177,13 @@ func runC10(cx *CheckCtx) {
 			skey := "nns." + m.GoName + "/" + siteConstruct(a, s)
 			switch keyFamily(s.Args[1]) {
 			case pfxSupply:
-				cx.decide(s.Ctx.inFunc(nnsPkg+".updateTotalSupply"), "single-writer", skey, "supply written by updateTotalSupply", "the total supply is written outside updateTotalSupply", s.Where(w))
+				cx.decide(s.Ctx.inFunc(supFn), "single-writer", skey, "supply written by updateTotalSupply", "the total supply is written outside updateTotalSupply", s.Where(w))
 			case pfxBalance, pfxAccTok:
-				cx.decide(s.Ctx.inFunc(nnsPkg+".updateBalance"), "single-writer", skey, "balance/token index written by updateBalance", "an owner balance or token index entry is written outside updateBalance", s.Where(w))
+				cx.decide(s.Ctx.inFunc(balFn), "single-writer", skey, "balance/token index written by updateBalance", "an owner balance or token index entry is written outside updateBalance", s.Where(w))
 			}
 		}
 		// D2 ledger balance per path
-		lcs, bad := ledgerCalls(a)
+		lcs, bad := ledgerCalls(a, balFn, supFn)
 		if bad != "" {
 			cx.undecided("ledger-balance", "nns."+m.GoName, bad, "")
 			continue
@@ -214,11 +242,11 @@ func runC10(cx *CheckCtx) {
 	cx.count("ledger_methods", nMethods)
 	cx.floor("ledger_methods", 2)
 	// updateBalance itself: +diff puts the token index entry, −diff deletes it, balance moves by diff
-	if fn := cx.pkgFunc(nnsPkg, "updateBalance"); fn != nil {
+	if fn := balF; fn != nil {
 		for _, d := range []int64{1, -1} {
 			a := cx.analyze(&Query{Name: fmt.Sprint("std:diff=", d), Root: fn, Consts: map[int]constant.Value{3: constant.MakeInt64(d)}})
 			tb := a.tb
-			acc, tok := tb.mk("param", "2:acc", 0), tb.mk("param", "1:tokenId", 0)
+			acc, tok := fnParam(tb, fn, 2), fnParam(tb, fn, 1)
 			okB, okI := true, false
 			for _, s := range a.RealEffects() {
 				if s.Effect == "put" && keyFamily(s.Args[1]) == pfxBalance {
@@ -470,7 +498,7 @@ func runC10(cx *CheckCtx) {
 						alive = true
 					}
 				}
-				if f.kind == KB && !f.pos && f.A.Op == "ret" && f.A.Name == nnsPkg+".parentExpired" {
+				if f.kind == KB && !f.pos && f.A.Op == "ret" && f.A.Name == fq(nnsParentExpiredFn(cx)) {
 					parents = true
 				}
 			}
@@ -480,7 +508,7 @@ func runC10(cx *CheckCtx) {
 		}
 		cx.decide(ok, "getter-alive", "nns."+g, "returns only with now < expiration of the name and parents alive established", g+" can answer for an expired name or a name under an expired parent", w.pos(m.Fn.Pos()))
 	}
-	if fn := cx.pkgFunc(nnsPkg, "parentExpired"); fn != nil {
+	if fn := nnsParentExpiredFn(cx); fn != nil {
 		// returns false only through the exhausted exit of its loop
 		ok := true
 		for _, b := range fn.Blocks {
@@ -624,7 +652,7 @@ func runC11(cx *CheckCtx) {
 					}
 				}
 			}
-			if m.GoName == "UpdateSOA" && subj.Op == "ret" && subj.Name == nnsPkg+".tokenIDFromName" {
+			if m.GoName == "UpdateSOA" && subj.Op == "ret" && subj.Name == fq(nnsTokenIDFromNameFn(cx)) {
 				// the record is keyed by tokenIDFromName(name); UpdateSOA has just read the name's own
 				// record alive (getNameState(name)), so the longest registered suffix found by
 				// tokenIDFromName in its first iteration is name itself
@@ -648,10 +676,10 @@ func runC11(cx *CheckCtx) {
 	cx.count("record_effects", n)
 	cx.floor("record_effects", 8)
 	// checkAdmin itself: owner empty ⇒ committee; else owner ∨ admin
-	if fn := cx.pkgFunc(nnsPkg, "NameState.checkAdmin"); fn != nil {
+	if fn := cx.locate(nnsPkg, "NameState.checkAdmin", "tests two witnesses (owner, admin) itself", func(f *ssa.Function) bool { return directCallees(f)["runtime.CheckWitness"] >= 2 }); fn != nil {
 		a := cx.analyze(&Query{Name: "std", Root: fn})
 		tb := a.tb
-		n0 := tb.mk("param", "0:n", 0)
+		n0 := fnParam(tb, fn, 0)
 		own, adm := tb.field(n0, "Owner"), tb.field(n0, "Admin")
 		ok := true
 		for _, ex := range a.Exits() {
@@ -783,10 +811,10 @@ func runC12(cx *CheckCtx) {
 		typ := paramTerm(tb, m, "typ")
 		var put, soa *Site
 		for _, s := range a.RealEffects() {
-			if s.Effect == "put" && s.Ctx.inFunc(nnsPkg+".storeRecord") {
+			if s.Effect == "put" && keyFamily(s.Args[1]) == pfxRecord && !isSoaKey(s.Args[1]) {
 				put = s
 			}
-			if s.Effect == "put" && s.Ctx.inFunc(nnsPkg+".updateSoaSerial") {
+			if s.Effect == "put" && keyFamily(s.Args[1]) == pfxRecord && isSoaKey(s.Args[1]) {
 				soa = s
 			}
 		}
@@ -837,10 +865,10 @@ func runC12(cx *CheckCtx) {
 		tb := a.tb
 		var put, soa *Site
 		for _, s := range a.RealEffects() {
-			if s.Effect == "put" && s.Ctx.inFunc(nnsPkg+".storeRecord") {
+			if s.Effect == "put" && keyFamily(s.Args[1]) == pfxRecord && !isSoaKey(s.Args[1]) {
 				put = s
 			}
-			if s.Effect == "put" && s.Ctx.inFunc(nnsPkg+".updateSoaSerial") {
+			if s.Effect == "put" && keyFamily(s.Args[1]) == pfxRecord && isSoaKey(s.Args[1]) {
 				soa = s
 			}
 		}
@@ -876,7 +904,7 @@ func runC12(cx *CheckCtx) {
 			if s.Effect == "delete" {
 				del = s
 			}
-			if s.Effect == "put" && s.Ctx.inFunc(nnsPkg+".updateSoaSerial") {
+			if s.Effect == "put" && keyFamily(s.Args[1]) == pfxRecord && isSoaKey(s.Args[1]) {
 				soa = s
 			}
 		}
@@ -919,20 +947,22 @@ func runC12(cx *CheckCtx) {
 	}
 	// updateSoaSerial: replaces only the serial field
 	// ---- D4 resolve budget
-	if m := cx.method("nns", "Resolve"); m != nil {
+	resolveFn := cx.locate(nnsPkg, "resolve", "calls itself (the CNAME chase)", func(f *ssa.Function) bool { return directCallees(f)[fq(f)] > 0 })
+	resolveName := fq(resolveFn)
+	if m := cx.method("nns", "Resolve"); m != nil && resolveFn != nil {
 		a := cx.run(m)
 		okB := false
-		for _, s := range a.Sites(func(s *Site) bool { return s.Inlined && s.Callee == nnsPkg+".resolve" }) {
+		for _, s := range a.Sites(func(s *Site) bool { return s.Inlined && s.Callee == resolveName }) {
 			if n, isC := s.Args[len(s.Args)-1].IntConst(); isC && n == 2 && s.Ctx.parent == nil {
 				okB = true
 			}
 		}
 		cx.decide(okB, "redirect-budget", "nns.Resolve", "starts with budget 2", "Resolve does not start the CNAME chase with a budget of two redirects", w.pos(m.Fn.Pos()))
 	}
-	if fn := cx.pkgFunc(nnsPkg, "resolve"); fn != nil {
+	if fn := resolveFn; fn != nil {
 		a := cx.analyze(&Query{Name: "std", Root: fn})
 		tb := a.tb
-		red := tb.mk("param", "4:redirect", 0)
+		red := fnParam(tb, fn, len(fn.Params)-1)
 		okN := true
 		for _, ex := range a.Exits() {
 			if !a.holdsAt(ex.State, -a.litLtC(red, 0)) {
@@ -941,7 +971,7 @@ func runC12(cx *CheckCtx) {
 		}
 		okR := false
 		nRec := 0
-		for _, s := range a.Sites(func(s *Site) bool { return !s.Inlined && s.Callee == nnsPkg+".resolve" }) {
+		for _, s := range a.Sites(func(s *Site) bool { return !s.Inlined && s.Callee == resolveName }) {
 			nRec++
 			if s.Args[len(s.Args)-1] == tb.binop(token.SUB, red, tb.constInt(1), intType) {
 				okR = true
@@ -955,6 +985,7 @@ func runC12(cx *CheckCtx) {
 		// follows the CNAME only for non-CNAME queries, returns accumulated results: value-level, not checked
 	}
 	// ---- D5 conflicting parent record
+	conflictFn := cx.locate(nnsPkg, "getParentConflictingRecord", "searches record names for a suffix itself", func(f *ssa.Function) bool { return directCallees(f)["native/std.MemorySearchLastIndex"] > 0 })
 	if m := cx.method("nns", "Register"); m != nil {
 		a := cx.run(m)
 		tb := a.tb
@@ -967,7 +998,7 @@ func runC12(cx *CheckCtx) {
 		ok := false
 		if namePut != nil {
 			for _, f := range a.unitFactsRaw(namePut.In) {
-				if f.kind == KEqC && f.pos && f.C == 0 && f.A.Op == "len" && f.A.Args[0].Op == "ret" && f.A.Args[0].Name == nnsPkg+".getParentConflictingRecord" {
+				if f.kind == KEqC && f.pos && f.C == 0 && f.A.Op == "len" && f.A.Args[0].Op == "ret" && f.A.Args[0].Name == fq(conflictFn) {
 					ok = true
 				}
 			}
@@ -975,10 +1006,10 @@ func runC12(cx *CheckCtx) {
 		cx.decide(ok, "parent-conflict", "nns.Register", "registers only with 'no conflicting parent record' established", "a name can be registered while its parent holds records for sub-names of it", w.pos(m.Fn.Pos()))
 		_ = tb
 	}
-	if fn := cx.pkgFunc(nnsPkg, "getParentConflictingRecord"); fn != nil {
+	if fn := conflictFn; fn != nil {
 		a := cx.analyze(&Query{Name: "std", Root: fn})
 		tb := a.tb
-		name := tb.mk("param", "1:name", 0)
+		name := fnParam(tb, fn, 1)
 		okS := false
 		for _, s := range a.Sites(func(s *Site) bool { return s.Callee == "storage.Find" }) {
 			ps := keyParts(s.Args[1])
@@ -1012,6 +1043,12 @@ func tb0(a *Analysis) *TermBuilder { return a.tb }
 
 func runC18(cx *CheckCtx) {
 	w := cx.W
+	safeFn := nnsSafeSplitFn(cx)
+	if safeFn == nil {
+		return
+	}
+	safeName := fq(safeFn)
+	var fragFn *ssa.Function
 	// D1 names: first effect only after splitAndCheck accepted the name
 	for _, g := range []struct{ name, param string }{{"Register", "name"}, {"RegisterTLD", "name"}} {
 		m := cx.method("nns", g.name)
@@ -1025,19 +1062,7 @@ func runC18(cx *CheckCtx) {
 		n := 0
 		for _, s := range a.RealEffects() {
 			n++
-			good := false
-			for _, f := range a.unitFactsRaw(s.In) {
-				if f.kind == KEqC && f.pos && f.C == 0 && f.A.Op == "len" {
-					x := f.A.Args[0]
-					if x.Op == "ret" && x.Name == nnsPkg+".safeSplitAndCheck" {
-						in := tb.insts[x.Inst]
-						if cs := a.siteIdx[siteKey{in.ctx, in.ins}]; cs != nil && len(cs.Args) == 1 && cs.Args[0] == nm {
-							good = true
-						}
-					}
-				}
-			}
-			if !good {
+			if !validatedAt(a, s.In, nm, safeName) {
 				ok = false
 			}
 		}
@@ -1045,16 +1070,16 @@ func runC18(cx *CheckCtx) {
 	}
 	if m := cx.method("nns", "IsAvailable"); m != nil {
 		a := cx.run(m)
-		ok := false
-		for _, s := range a.Sites(func(s *Site) bool { return s.Inlined && s.Callee == nnsPkg+".splitAndCheck" }) {
-			if s.Args[0] == paramTerm(a.tb, m, "name") && s.Ctx.parent == nil {
-				ok = true
+		ok := len(a.Exits()) > 0
+		for _, ex := range a.Exits() {
+			if !validatedAt(a, ex.State, paramTerm(a.tb, m, "name"), safeName) {
+				ok = false
 			}
 		}
 		cx.decide(ok, "validate-first", "nns.IsAvailable", "validates the name", "isAvailable answers for names that were not validated", w.pos(m.Fn.Pos()))
 	}
 	// the validator: accepting exits establish the limits
-	if fn := cx.pkgFunc(nnsPkg, "safeSplitAndCheck"); fn != nil {
+	if fn := safeFn; fn != nil {
 		a := cx.analyze(&Query{Name: "std", Root: fn})
 		tb := a.tb
 		nm := tb.mk("param", "0:name", 0)
@@ -1071,19 +1096,25 @@ func runC18(cx *CheckCtx) {
 		cx.decide(ok, "limits", "nns.safeSplitAndCheck/length", "accepts only 3 ≤ len(name) ≤ 255", "names shorter than 3 or longer than 255 bytes can be accepted", w.pos(fn.Pos()))
 		// every fragment is checked, the last one as root
 		okF, okRoot := false, false
-		for _, s := range a.Sites(func(s *Site) bool { return s.Inlined && s.Callee == nnsPkg+".checkFragment" }) {
+		for _, s := range a.Sites(func(s *Site) bool { return s.Inlined && s.Ctx.parent == nil && siteInLoop(s) && len(s.Args) == 2 }) {
 			if s.Args[0].Op == "index" || s.Args[0].Op == "elem" {
+				fragFn = s.Instr.(ssa.CallInstruction).Common().StaticCallee()
 				okF = true
 				frs := s.Args[0].Args[0]
 				last := tb.binop(token.SUB, tb.mk("len", "", 0, frs), tb.constInt(1), intType)
 				r := s.Args[1]
-				// isRoot ⇔ index == len(fragments) − 1, with the index that selects the fragment
-				if r.Op == "bin" && r.Name == "==" && len(r.Args) == 2 && (r.Args[1] == last || r.Args[0] == last) {
-					idx := r.Args[0]
-					if idx == last {
-						idx = r.Args[1]
+				// isRoot ⇔ index == len(fragments) − 1, with the index that selects the
+				// fragment; any arithmetically equivalent spelling (i+1 == l, l-1 == i, …)
+				idx := tb.indexOfElem(s.Args[0])
+				if s.Args[0].Op == "index" {
+					idx = s.Args[0].Args[1]
+				}
+				if idx != nil && r.Op == "bin" && r.Name == "==" && len(r.Args) == 2 {
+					d := tb.binop(token.SUB, r.Args[0], r.Args[1], intType)
+					if os.Getenv("DBGROOT") != "" {
+						fmt.Println("ROOT r=", r, "idx=", idx, "last=", last, "d=", d, "e=", tb.binop(token.SUB, idx, last, intType))
 					}
-					if idx.Op == "phi" && (s.Args[0].Op == "elem" || (len(s.Args[0].Args) == 2 && s.Args[0].Args[1] == idx)) {
+					if d == tb.binop(token.SUB, idx, last, intType) || d == tb.binop(token.SUB, last, idx, intType) {
 						okRoot = true
 					}
 				}
@@ -1092,11 +1123,11 @@ func runC18(cx *CheckCtx) {
 		cx.decide(okF, "limits", "nns.safeSplitAndCheck/fragments", "every fragment goes through checkFragment", "fragments are not individually validated", w.pos(fn.Pos()))
 		cx.decide(okRoot, "limits", "nns.safeSplitAndCheck/root-flag", "exactly the last fragment is validated with the root rules (≤ 16 bytes, leading letter)", "the root rules (≤ 16 bytes, leading letter) are not applied to exactly the last label of every validated name: CNAME data or names with a bad last label are accepted", w.pos(fn.Pos()))
 	}
-	if fn := cx.pkgFunc(nnsPkg, "checkFragment"); fn != nil {
+	if fn := fragFn; fn != nil {
 		for _, root := range []bool{true, false} {
 			a := cx.analyze(&Query{Name: fmt.Sprint("std:root=", root), Root: fn, Consts: map[int]constant.Value{1: constant.MakeBool(root)}})
 			tb := a.tb
-			v := tb.mk("param", "0:v", 0)
+			v := fnParam(tb, fn, 0)
 			max := int64(63)
 			if root {
 				max = 16
@@ -1137,7 +1168,7 @@ func runC18(cx *CheckCtx) {
 		typ, data := paramTerm(tb, m, "typ"), paramTerm(tb, m, "data")
 		var put *Site
 		for _, s := range a.RealEffects() {
-			if s.Effect == "put" && s.Ctx.inFunc(nnsPkg+".storeRecord") {
+			if s.Effect == "put" && keyFamily(s.Args[1]) == pfxRecord && !isSoaKey(s.Args[1]) {
 				put = s
 			}
 		}
@@ -1146,6 +1177,15 @@ func runC18(cx *CheckCtx) {
 			continue
 		}
 		types := map[int64]string{1: "checkIPv4", 5: "safeSplitAndCheck", 16: "len", 28: "checkIPv6"}
+		valFn := map[string]string{}
+		for vn, sep := range map[string]string{"checkIPv4": ".", "checkIPv6": ":"} {
+			sep := sep
+			if f := cx.locate(nnsPkg, vn, "returns a bool and splits its argument at '"+sep+"' itself", func(f *ssa.Function) bool {
+				return returnsBool(f) && len(f.Params) == 1 && callsWithConstArg(f, "native/std.StringSplit", 1, sep)
+			}); f != nil {
+				valFn[vn] = fq(f)
+			}
+		}
 		var tl []int32
 		for t := range types {
 			tl = append(tl, a.litEqC(typ, t))
@@ -1169,7 +1209,7 @@ func runC18(cx *CheckCtx) {
 			case "safeSplitAndCheck":
 				for id := int32(1); id < int32(len(a.lt.lits)); id++ {
 					l := a.lt.lits[id]
-					if l.Kind == KEqC && l.C == 0 && l.A.Op == "len" && l.A.Args[0].Op == "ret" && l.A.Args[0].Name == nnsPkg+".safeSplitAndCheck" {
+					if l.Kind == KEqC && l.C == 0 && l.A.Op == "len" && l.A.Args[0].Op == "ret" && l.A.Args[0].Name == safeName {
 						in := tb.insts[l.A.Args[0].Inst]
 						if cs := a.siteIdx[siteKey{in.ctx, in.ins}]; cs != nil && cs.Args[0] == data && st.refutes(a.lt, []int32{id}) {
 							good = true
@@ -1179,7 +1219,7 @@ func runC18(cx *CheckCtx) {
 			default:
 				for id := int32(1); id < int32(len(a.lt.lits)); id++ {
 					l := a.lt.lits[id]
-					if l.Kind == KB && l.A.Op == "ret" && l.A.Name == nnsPkg+"."+vname {
+					if l.Kind == KB && l.A.Op == "ret" && l.A.Name == valFn[vname] {
 						in := tb.insts[l.A.Inst]
 						if cs := a.siteIdx[siteKey{in.ctx, in.ins}]; cs != nil && cs.Args[0] == data && st.refutes(a.lt, []int32{id}) {
 							good = true
@@ -1208,7 +1248,10 @@ func runC18(cx *CheckCtx) {
 	sort.Strings(names)
 	for _, n := range names {
 		f, ok := sp.Members[n].(*ssa.Function)
-		if !ok || f.Blocks == nil || !strings.HasPrefix(n, "check") {
+		if !ok || f.Blocks == nil || !returnsBool(f) {
+			continue // the validators: bool-valued helpers that parse decimal text themselves
+		}
+		if dc := directCallees(f); dc["native/std.Atoi"]+dc["native/std.Atoi10"] == 0 {
 			continue
 		}
 		a := cx.analyze(&Query{Name: "std", Root: f})
@@ -1228,4 +1271,61 @@ func runC18(cx *CheckCtx) {
 	}
 	cx.count("decimal_atoi_sites", nAtoi)
 	cx.floor("decimal_atoi_sites", 1)
+}
+
+func returnsBool(f *ssa.Function) bool {
+	r := f.Signature.Results()
+	return r.Len() == 1 && types.Identical(r.At(0).Type().Underlying(), types.Typ[types.Bool])
+}
+
+// nnsParentExpiredFn: the bool-valued helper that reads name states and the clock itself.
+func nnsParentExpiredFn(cx *CheckCtx) *ssa.Function {
+	return cx.locate(nnsPkg, "parentExpired", "returns a bool after reading stored name states and the clock directly", func(f *ssa.Function) bool {
+		dc := directCallees(f)
+		return returnsBool(f) && !token.IsExported(f.Name()) && dc["runtime.GetTime"] > 0 && dc["storage.Get"] > 0
+	})
+}
+
+// nnsTokenIDFromNameFn: the string-valued helper that finds the registered name a record belongs to.
+func nnsTokenIDFromNameFn(cx *CheckCtx) *ssa.Function {
+	return cx.locate(nnsPkg, "tokenIDFromName", "returns a string after reading stored name states and the clock directly", func(f *ssa.Function) bool {
+		r := f.Signature.Results()
+		dc := directCallees(f)
+		return r.Len() == 1 && !token.IsExported(f.Name()) && types.Identical(r.At(0).Type().Underlying(), types.Typ[types.String]) && dc["runtime.GetTime"] > 0 && dc["storage.Get"] > 0
+	})
+}
+
+// isSoaKey: a record key whose type component is the constant SOA: the SOA
+// refresh, as opposed to the store of the submitted record (type = parameter).
+func isSoaKey(k *Term) bool {
+	ps := keyParts(k)
+	if len(ps) < 4 {
+		return false
+	}
+	s, ok := ps[3].BytesConst()
+	return ok && len(s) >= 1 && s[0] == 6
+}
+
+// nnsSafeSplitFn: the name validator — the helper that splits the name itself
+// and returns (fragments, error text).
+func nnsSafeSplitFn(cx *CheckCtx) *ssa.Function {
+	return cx.locate(nnsPkg, "safeSplitAndCheck", "splits a name itself and returns (fragments, error text)", func(f *ssa.Function) bool {
+		return f.Signature.Results().Len() == 2 && directCallees(f)["native/std.StringSplit"] > 0
+	})
+}
+
+// validatedAt: the state knows that the validator accepted exactly nm (its error result is empty).
+func validatedAt(a *Analysis, st *CNF, nm *Term, safeName string) bool {
+	for _, f := range a.unitFactsRaw(st) {
+		if f.kind == KEqC && f.pos && f.C == 0 && f.A.Op == "len" {
+			x := f.A.Args[0]
+			if x.Op == "ret" && x.Name == safeName {
+				in := a.tb.insts[x.Inst]
+				if cs := a.siteIdx[siteKey{in.ctx, in.ins}]; cs != nil && len(cs.Args) == 1 && cs.Args[0] == nm {
+					return true
+				}
+			}
+		}
+	}
+	return false
 }
